@@ -104,15 +104,6 @@ func zzvCheckBucket(res *vrep.Result, b *FSBucket, dir string, model map[string]
 			if rerr != nil || !bytes.Equal(got, want) {
 				fail("read-after-write", "read of %q returns %d bytes (err %v), %d were written", name, len(got), rerr, len(want))
 			}
-		case zzvConflicts(model, name):
-			// a directory prefix of an object: must at least not yield contents
-			if err == nil {
-				got, rerr := io.ReadAll(r)
-				r.Close()
-				if rerr == nil {
-					fail("absent-object-readable", "read of absent %q (a prefix of an object) returned %d bytes without error", name, len(got))
-				}
-			}
 		default:
 			if !errors.Is(err, ErrObjectNotExist) {
 				if err == nil {
@@ -163,7 +154,7 @@ func TestVerifC18(t *testing.T) {
 	defer res.Guard()
 	base, _ := vrep.Scratch("c18")
 	res.Rule = "E2: BFS over write sequences (12 names incl. nested, shared prefixes and the services' date/X shapes x 3 contents incl. 70 KiB) to depth 3 (thorough 4), state = model map, every read of every name and every listing of 12 prefixes checked in every state; E3: every object name the upload, merge and chart services construct from validated weeks, X values and date ranges resolves inside the bucket directory"
-	res.Assumptions = []string{"file-system backend only (no GCS emulator offline)", "a name that is a directory prefix of another object is excluded from the round-trip obligation"}
+	res.Assumptions = []string{"file-system backend only (no GCS emulator offline)", "writing a name that is a directory prefix of a stored object (or lies below a stored object) cannot succeed on a file system: such a write must fail and change nothing; reading such an absent name must still report not-exist"}
 	depth := 3
 	if p.Thorough() {
 		depth = 4
